@@ -97,8 +97,9 @@ def run_cases(cases, res, stratum):
 def run_arrays(rng, n_cases, res):
     cases = []
     for _ in range(n_cases):
-        n = rng.choice([2, 3, 5, 8, 13, 16, 32, 52, 54, 60, 63, 64, 70]); s = rng.random() < 0.5; nf = rng.randint(0, n); lo, hi = S.fmt_bounds(s, n)
+        n = rng.choice([2, 3, 5, 8, 13, 16, 32, 52, 54, 60, 63, 64, 65, 70, 128]); s = rng.random() < 0.5; nf = rng.randint(0, n); lo, hi = S.fmt_bounds(s, n)
         codes = [rng.choice([lo, hi, 0, rng.randint(lo, hi)]) for _ in range(4)]
+        if n >= 64 and rng.random() < 0.5: codes[rng.randrange(4)] = hi if rng.random() < 0.5 else lo     # a code beyond int64 among small ones
         shape = rng.choice([(4,), (2, 2)])
         cases.append({'f': [s, n, nf], 'codes': codes, 'shape': list(shape)})
     run_array_cases(cases, res)
@@ -113,6 +114,10 @@ def run_array_cases(cases, res):
             res.count('R:arrays', key=repr(c), nontrivial=True, n=8)
             if [str(t) for t in b] != [py_bin(n, t) for t in codes] or [str(t) for t in h] != ['0x' + py_hex(n, t) for t in codes]:
                 res.fail(c, 'C11: element-wise bin()/hex() of an array is not the image of each code', expected=[py_bin(n, t) for t in codes], got=b); continue
+            if shape == (4,):
+                bd = [str(t) for t in x.bin(frac_dot=True)]
+                if bd != [insert_point(py_bin(n, t), nf) for t in codes]:
+                    res.fail(c, 'C11: element-wise bin(frac_dot=True) of an array is not the image of each code with the point', expected=[insert_point(py_bin(n, t), nf) for t in codes], got=bd); continue
             br = np.array(x.base_repr(10)).reshape(-1).tolist()
             if [str(t) for t in br] != [base_repr(t, 10) for t in codes]:
                 res.fail(c, 'C11: element-wise base_repr of an array is not the numeral of each code', expected=[base_repr(t, 10) for t in codes], got=br); continue
